@@ -1265,6 +1265,9 @@ func (m *ldMachine) limitBids() []auctypes.LimitOrderBid {
 }
 
 func (m *ldMachine) finish() {
+	for _, k := range sortedKeys(m.c.HandlerPanics) {
+		m.r.ClassN("handler-panic:"+k, m.c.HandlerPanics[k])
+	}
 	r := m.r
 	for k, n := range m.ok {
 		r.ClassN("ok:"+k, n)
